@@ -1,6 +1,8 @@
 package main
 
 import (
+	"io"
+	"crypto"
 	"bytes"
 	"encoding/binary"
 	"fmt"
@@ -28,8 +30,13 @@ func init() {
 		g := guidFromWire(unhx(a["guid"]))
 		attrs, _ := strconv.ParseUint(a["attrs"], 10, 32)
 		v := efivar.Efivar{Name: string(unhx(a["name"])), GUID: &g, Attributes: attributes.Attributes(attrs)}
+		var signer crypto.Signer = key
+		if d := atoi(a["slow"]); d > 0 {
+			// a signer that takes longer than a second (a token, an HSM): the clock moves during the call
+			signer = slowSigner{key, time.Duration(d) * time.Millisecond}
+		}
 		t0 := time.Now().UTC()
-		_, m, err := signature.SignEFIVariable(v, rawValue(unhx(a["payload"])), key, cert)
+		_, m, err := signature.SignEFIVariable(v, rawValue(unhx(a["payload"])), signer, cert)
 		t1 := time.Now().UTC()
 		if err != nil {
 			return "err", err.Error()
@@ -38,6 +45,16 @@ func init() {
 		m.Marshal(&buf)
 		return "ok", fmt.Sprintf("%s %d %d %s", hx(buf.Bytes()), t0.Unix(), t1.Unix(), hx(m.Bytes()))
 	}
+}
+
+type slowSigner struct {
+	crypto.Signer
+	d time.Duration
+}
+
+func (s slowSigner) Sign(r io.Reader, digest []byte, opts crypto.SignerOpts) ([]byte, error) {
+	time.Sleep(s.d)
+	return s.Signer.Sign(r, digest, opts)
 }
 
 func atoi(s string) int { n, _ := strconv.Atoi(s); return n }
@@ -63,7 +80,7 @@ func c06Eval(c *Ctx, cs Case) {
 	c.Count(cs.Key(), true, fmt.Sprintf("varsign/%s/%s/payload%s", tz, cs.S("class"), sizeClass(len(payload))))
 	c.Sample(cs)
 	res := c06Worker(c, tz).Do("var.sign", map[string]string{"verif": c.VerifDir, "key": fmt.Sprint(keyIdx), "shape": fmt.Sprint(shape), "name": hx(name), "guid": hx(guid),
-		"attrs": fmt.Sprint(attrs), "payload": hx(payload)}, 20*time.Second)
+		"attrs": fmt.Sprint(attrs), "payload": hx(payload), "slow": fmt.Sprint(cs.I("slow"))}, 20*time.Second)
 	fail := func(what, goObs, spec, matcher string) {
 		c.Fail(Failure{Kind: "property", Matcher: matcher, What: what, Case: cs, Go: clip(goObs), Spec: clip(spec)})
 	}
@@ -211,7 +228,8 @@ func c06Gen(c *Ctx) {
 			w.Close()
 		}
 	}()
-	tzs := []string{"UTC", "Asia/Tokyo", "America/St_Johns"}
+	// one zone without DST, and DST zones of both hemispheres so that one of them is in DST at any date
+	tzs := []string{"UTC", "Asia/Tokyo", "America/St_Johns", "Pacific/Auckland"}
 	globalG := wireGUID(attributes.EFI_GLOBAL_VARIABLE)
 	secdb := wireGUID(attributes.EFI_IMAGE_SECURITY_DATABASE_GUID)
 	type nv struct {
@@ -234,11 +252,18 @@ func c06Gen(c *Ctx) {
 			i++
 		}
 	}
+	// a signer slower than one second: the timestamp signed and the timestamp emitted must be the same reading
+	for n := 0; n < c.N(2, 40) && c.NFailures() < 6; n++ {
+		v := names[n%len(names)]
+		p := pk[c.Rng.Intn(len(pk))]
+		c06Eval(c, Case{"op": "varsign", "tz": tzs[n%len(tzs)], "class": p + "/slow-signer", "name": hx([]byte(v.name)), "guid": hx(v.guid), "attrs": int64(masks[c.Rng.Intn(len(masks))]),
+			"payload": hx(payloads[p]), "key": int64(c.Rng.Intn(2)), "shape": int64(c.Rng.Intn(9)), "slow": int64(1100)})
+	}
 }
 
 func init() {
 	register("C06", &PropDef{
-		Rule:   "signed updates for the standard secure-boot variables and arbitrary ASCII names (incl. empty and long), the global / image-security / random GUIDs, attribute masks {0x27, 0x67 (APPEND_WRITE), 7, 0, 0x40, all ones}, payloads {empty database, SHA-256 list, certificate list, one byte, 300 raw bytes}, two RSA keys x 9 certificate shapes, each produced in worker processes started with TZ=UTC, TZ=Asia/Tokyo and TZ=America/St_Johns. Layout is checked by an independent parser, the binding by encoding/asn1+crypto/rsa, go.mozilla.org/pkcs7 and the Lean Spec over the rebuilt buffer and over four wrong buffers; the output is reproduced byte for byte by the Lean model. Every case is non-trivial; distinct = distinct (zone, name, GUID, mask, payload, key, shape).",
+		Rule:   "signed updates for the standard secure-boot variables and arbitrary ASCII names (incl. empty and long), the global / image-security / random GUIDs, attribute masks {0x27, 0x67 (APPEND_WRITE), 7, 0, 0x40, all ones}, payloads {empty database, SHA-256 list, certificate list, one byte, 300 raw bytes}, two RSA keys x 9 certificate shapes, each produced in worker processes started with TZ=UTC, Asia/Tokyo, America/St_Johns and Pacific/Auckland (DST zones of both hemispheres), plus updates signed through a crypto.Signer that takes 1.1 s so that the clock moves during the call. Layout is checked by an independent parser, the binding by encoding/asn1+crypto/rsa, go.mozilla.org/pkcs7 and the Lean Spec over the rebuilt buffer and over four wrong buffers; the output is reproduced byte for byte by the Lean model. Every case is non-trivial; distinct = distinct (zone, name, GUID, mask, payload, key, shape).",
 		Assume: []string{"variable names are ASCII (the property's domain); time is bracketed by the worker around the call (±1 s)"},
 		Eval:   c06Eval, Gen: c06Gen,
 	})
